@@ -24,6 +24,8 @@ from liquid.token import TOKEN_LBRACKET
 from liquid.token import TOKEN_RBRACKET
 from liquid.token import TOKEN_WORD
 
+from ._tokenize import _keywords as KEYWORDS
+
 if TYPE_CHECKING:
     from liquid import Environment
     from liquid import RenderContext
@@ -55,10 +57,14 @@ class Path(Expression):
             quote = '"' if "'" in segment else "'"
             return f"[{quote}{segment}{quote}]"
 
+        def _is_property(segment: str) -> bool:
+            # Keywords, like `empty` and `true`, don't lex as a word.
+            return bool(RE_PROPERTY.fullmatch(segment)) and segment not in KEYWORDS
+
         it = iter(self.path)
         root = next(it)
         if isinstance(root, str):
-            buf = [root if RE_PROPERTY.fullmatch(root) else _quoted(root)]
+            buf = [root if _is_property(root) else _quoted(root)]
         else:
             buf = [f"[{root}]"]
 
@@ -66,7 +72,7 @@ class Path(Expression):
             if isinstance(segment, Path):
                 buf.append(f"[{segment}]")
             elif isinstance(segment, str):
-                if RE_PROPERTY.fullmatch(segment):
+                if _is_property(segment):
                     buf.append(f".{segment}")
                 else:
                     buf.append(_quoted(segment))
